@@ -112,31 +112,31 @@ class State(object):
       self.heap[key] = a
       r = z3.Int('h0r')
       if is_ref and sort == z3.IntSort():
-        self.axiom(z3.ForAll([r], z3.And(z3.Select(a, r) >= 0, z3.Select(a, r) < ALLOC_BASE)))
+        self.axiom(z3.ForAll([r], z3.Implies(r < ALLOC_BASE, z3.And(z3.Select(a, r) >= 0, z3.Select(a, r) < ALLOC_BASE))))
         if is_ref and not owned and key != ('dict', 'keys'):
           # a container that some slot owns is referenced by that slot only: other reference fields never point to it
           ctag = z3.Function('container_tag', z3.IntSort(), z3.IntSort())
-          self.axiom(z3.ForAll([r], ctag(z3.Select(a, r)) == 0))
+          self.axiom(z3.ForAll([r], z3.Implies(r < ALLOC_BASE, ctag(z3.Select(a, r)) == 0)))
         if owned:
           # separation: an owned container belongs to exactly one (object, field) slot
           ctag = z3.Function('container_tag', z3.IntSort(), z3.IntSort())
           cown = z3.Function('container_owner', z3.IntSort(), z3.IntSort())
           import zlib
           tag = zlib.crc32(('%s.%s' % key).encode()) % 1000003 + 1
-          self.axiom(z3.ForAll([r], z3.Implies(z3.Select(a, r) != 0,
+          self.axiom(z3.ForAll([r], z3.Implies(z3.And(r < ALLOC_BASE, z3.Select(a, r) != 0),
                                                z3.And(ctag(z3.Select(a, r)) == tag, cown(z3.Select(a, r)) == r))))
         if key == ('dict', 'keys'):
           # the hidden key list of a dict is owned by that dict alone (inverse function owner)
           owner = z3.Function('keylist_owner', z3.IntSort(), z3.IntSort())
-          self.axiom(z3.ForAll([r], owner(z3.Select(a, r)) == r))
+          self.axiom(z3.ForAll([r], z3.Implies(r < ALLOC_BASE, owner(z3.Select(a, r)) == r)))
           ctag = z3.Function('container_tag', z3.IntSort(), z3.IntSort())
-          self.axiom(z3.ForAll([r], ctag(z3.Select(a, r)) == -1))
+          self.axiom(z3.ForAll([r], z3.Implies(r < ALLOC_BASE, ctag(z3.Select(a, r)) == -1)))
       elif key in (('list', 'items'),):
         i = z3.Int('h0i')
         e = z3.Select(z3.Select(a, r), i)
-        self.axiom(z3.ForAll([r, i], z3.Implies(Val.is_VR(e), z3.And(Val.r(e) > 0, Val.r(e) < ALLOC_BASE))))
+        self.axiom(z3.ForAll([r, i], z3.Implies(z3.And(r < ALLOC_BASE, Val.is_VR(e)), z3.And(Val.r(e) > 0, Val.r(e) < ALLOC_BASE))))
       elif key in (('dict', 'val'),):
         k = z3.Const('h0k', Val)
         e = z3.Select(z3.Select(a, r), k)
-        self.axiom(z3.ForAll([r, k], z3.Implies(Val.is_VR(e), z3.And(Val.r(e) > 0, Val.r(e) < ALLOC_BASE))))
+        self.axiom(z3.ForAll([r, k], z3.Implies(z3.And(r < ALLOC_BASE, Val.is_VR(e)), z3.And(Val.r(e) > 0, Val.r(e) < ALLOC_BASE))))
     return a
